@@ -40,7 +40,7 @@ RULE = (
     "a non-default updater flag or reward, a node removed before the end of "
     "an episode; multi env: >=2 resets."
 )
-BUDGET = {"quick": 500, "thorough": 1500}
+BUDGET = {"quick": 500, "thorough": 6000}
 ASSUMPTIONS = [
     "space membership is asserted with use_padding=True (without padding shapes necessarily shrink)",
     "multi env: generators with one machine per operation and without recirculation (every instance then uses all M machine ids, so the maximum-size sample instance bounds node and edge counts); other generators are the recorded known finding",
